@@ -5,12 +5,16 @@ PROFILE_MODULES = {
     "crash": "crash",
     "finders": "finders",
     "last": "last",
+    "crud": "crud",
+    "derived": "derived",
 }
 
 PROPERTY_PROFILE = {
     "C17": "crash",
     "C11": "finders",
     "C09": "last",
+    "C15": "crud",
+    "C12": "derived",
 }
 
 _cache = {}
